@@ -14,6 +14,18 @@ def check(scn, H, view=None):
     load_on = H.get('load_on')
     if load_on is None or load_on != v.chain[-1]:
         return out, v.stats
+    # a run of a legal history that dies with an internal error records no
+    # torque at all for the instant it was computing
+    for ep in v.epochs:
+        for seg in ep['segments']:
+            if seg['exc'] is not None and seg['exc'][0] in (
+                    'TypeError', 'AttributeError', 'KeyError', 'IndexError',
+                    'ZeroDivisionError', 'NameError', 'UnboundLocalError'):
+                out.append(Violation(PROP, f"run-raises-internal-error/{seg['exc'][0]}", {
+                    'epoch': ep['index'], 'instant': seg['i1'] - 1,
+                    'message': seg['exc'][1],
+                    'ops_before': [o['op'] for o in scn['schedule'][:seg['op']]]}))
+                return out, v.stats
     calls = {}
     for c in H['load_calls']:
         calls.setdefault((c['epoch'], c['k']), []).append(c)
